@@ -39,7 +39,11 @@ func TestProbe(t *testing.T) {
 				fmt.Printf("    event %s %v\n", ev.EventType.ID(), ev)
 			}
 			if r.Err != nil {
-				es := r.Err.Error(); if len(es) > 1500 { es = es[:300] + " ... " + es[len(es)-1200:] }; fmt.Printf("    err: %v\n", es)
+				es := r.Err.Error()
+				if len(es) > 1500 {
+					es = es[:300] + " ... " + es[len(es)-1200:]
+				}
+				fmt.Printf("    err: %v\n", es)
 			}
 			if r.Panic != nil {
 				fmt.Printf("    PANIC: %v\n", r.Panic)
